@@ -239,7 +239,8 @@ def pure_chain(node):
         return pure_chain(node.value)
     if isinstance(node, ast.Subscript) and not isinstance(node.slice, ast.Slice):
         s = node.slice
-        simple = isinstance(s, (ast.Constant, ast.Name)) or (isinstance(s, ast.UnaryOp) and isinstance(s.operand, ast.Constant))
+        simple = isinstance(s, (ast.Constant, ast.Name)) or (isinstance(s, ast.UnaryOp) and isinstance(s.operand, ast.Constant)) \
+            or (isinstance(s, ast.BinOp) and isinstance(s.op, (ast.Add, ast.Sub)) and isinstance(s.left, ast.Name) and isinstance(s.right, ast.Constant))
         return simple and pure_chain(node.value)
     return False
 
